@@ -478,7 +478,9 @@ pub fn run(tier: Tier) -> i32 {
     let mem_runs = evals.load(Ordering::Relaxed);
     // real-socket lane: every step once through the public constructor, compared with the in-memory sync run
     let mut real = 0u64;
-    for s in st.iter().filter(|s| s.b != B::Disconnect && (s.b != B::Silent || s.mods == 2)) {
+    // (a 10 ms timeout on a real socket is a race against the server thread unless the server is
+    // silent on purpose: steps that are answered run without the timeout modifier here)
+    for s in st.iter().filter(|s| s.b != B::Disconnect && (s.b != B::Silent || s.mods == 2) && (s.b == B::Silent || s.mods & 2 == 0)) {
         // after an unbind the order in which the peer's close and the next request are noticed
         // depends on OS timing, so unbind goes last on the real socket
         let seq = if s.k == K::Unbind {
